@@ -575,7 +575,18 @@ func evalSchema(c Case) (problems []string, skipped string) {
 	if c.Mode != "" {
 		args = append(args, "--tx-mode", c.Mode)
 	}
-	res := w.Run(nil, args...)
+	stdin := ""
+	if c.Extra == "prompt" {
+		// the plan is approved at the prompt (a newline selects "Apply") instead of by --auto-approve.
+		var a2 []string
+		for _, a := range args {
+			if a != "--auto-approve" {
+				a2 = append(a2, a)
+			}
+		}
+		args, stdin = a2, "\n"
+	}
+	res := w.RunStdin(stdin, nil, args...)
 	after, err := w.Dump("db.sqlite")
 	if err != nil {
 		return []string{"harness: " + err.Error()}, ""
@@ -762,6 +773,7 @@ func cases(tier string) []Case {
 		cs = append(cs, Case{Kind: "migrate_dryrun", Mode: "file", State: st, Extra: "--allow-dirty", FailF: -1})
 	}
 	for name := range scenarios {
+		cs = append(cs, Case{Kind: "schema_fail", Scen: name, FailF: -1, Extra: "prompt"}, Case{Kind: "schema_fail", Scen: name, Mode: "file", FailF: -1, Extra: "prompt"})
 		cs = append(cs, Case{Kind: "schema_fail", Scen: name, FailF: -1}, Case{Kind: "schema_fail", Scen: name, Mode: "none", FailF: -1},
 			Case{Kind: "schema_fail", Scen: name, Mode: "file", FailF: -1}, Case{Kind: "schema_dryrun", Scen: name, FailF: -1})
 	}
@@ -806,7 +818,7 @@ func classify(c Case, problems []string) string {
 
 func Run(r *report.Run) {
 	defer clih.Cleanup()
-	r.Rule = "real CLI on real SQLite files: (1) `migrate apply`: directory shapes (1-3 files x 1-3 statements, and directories with a checkpoint file preceded by older files) x a really failing statement (naming a missing table; for the plain directories also a constraint violation with the SQLite conflict clause OR ROLLBACK) at every position x tx-mode {file, all, none} x per-file txmode directive on the failing / preceding file x apply count {all, 1, 2} (plus every pair of failing positions in one file, repaired one after the other): the state after the failure (journal rows written by the statements themselves + revision rows, read by our own connection) must equal what the mode promises, and after repairing the file and re-running the full dump must equal that of a run that never failed; (1b) a failure of the commit itself: the SQLite driver refuses to commit a transaction that adds a foreign-key violation; on a database that already holds one (two) orphan rows the first file replaces them by another orphan (same / lower count): file and all mode must fail and keep nothing; (2) `migrate apply --dry-run` from 5 start states (fresh, partially applied, one file applied, fully applied, non-empty without history) x modes x count x {--baseline, --allow-dirty}: dump and directory byte-identical; (3) `schema apply` on populated tables whose plan fails midway on the data, default / file / none tx-mode, and --dry-run; non-trivial = every case; distinct = the case tuple"
+	r.Rule = "real CLI on real SQLite files: (1) `migrate apply`: directory shapes (1-3 files x 1-3 statements, and directories with a checkpoint file preceded by older files) x a really failing statement (naming a missing table; for the plain directories also a constraint violation with the SQLite conflict clause OR ROLLBACK) at every position x tx-mode {file, all, none} x per-file txmode directive on the failing / preceding file x apply count {all, 1, 2} (plus every pair of failing positions in one file, repaired one after the other): the state after the failure (journal rows written by the statements themselves + revision rows, read by our own connection) must equal what the mode promises, and after repairing the file and re-running the full dump must equal that of a run that never failed; (1b) a failure of the commit itself: the SQLite driver refuses to commit a transaction that adds a foreign-key violation; on a database that already holds one (two) orphan rows the first file replaces them by another orphan (same / lower count): file and all mode must fail and keep nothing; (2) `migrate apply --dry-run` from 5 start states (fresh, partially applied, one file applied, fully applied, non-empty without history) x modes x count x {--baseline, --allow-dirty}: dump and directory byte-identical; (3) `schema apply` on populated tables whose plan fails midway on the data, default / file / none tx-mode, approved by --auto-approve or at the prompt, and --dry-run; non-trivial = every case; distinct = the case tuple"
 	r.Assumptions = []string{
 		"after a repair the hash / partial_hashes columns of the revision row legitimately differ from a never-failed run and are masked; timestamps are masked",
 		"`--tx-mode all` with per-file txmode directives is rejected by the CLI and not enumerated",
